@@ -4,4 +4,5 @@ CONSTANT Senders <- TrSenders
 CONSTANT MaxSb <- TrMaxSb
 INVARIANT NotAccepted
 CONSTRAINT HighWater
+CONSTRAINT Prune
 CHECK_DEADLOCK FALSE
